@@ -82,6 +82,12 @@ def gen_general(rng, nq=(6, 12), mix=None, ref_family=None, lattice_cfg=False, p
             truths[str(rid)] = truths.pop(str(victim["id"]), None)
             victim["id"] = rid
             queries.sort(key=lambda q: q["id"])
+    if rng.random() < 0.2 and queries:
+        # two molecules with identical label patterns under different ids
+        src_q = rng.choice(queries)
+        new_id = max(q["id"] for q in queries) + rng.randint(1, 50)
+        queries.append(dict(src_q, id=new_id, pos=list(src_q["pos"])))
+        truths[str(new_id)] = truths.get(str(src_q["id"]))
     cfg = W.swarm_config(rng, lattice=(fam == "lattice" and lattice_cfg), aggressive=aggressive)
     if fam == "lattice" and rng.random() < 0.6:
         cfg["-d"] = 600
@@ -89,6 +95,39 @@ def gen_general(rng, nq=(6, 12), mix=None, ref_family=None, lattice_cfg=False, p
                                   "r_layout": W.layout(rng, len(refs), plain_layout),
                                   "q_layout": W.layout(rng, len(queries), plain_layout)}},
             "config": cfg, "truth": truths, "meta": {"ref_family": fam, "families": sorted({q["family"] for q in queries})}}
+
+
+def add_prelude(rng, case, ex):
+    """An earlier COMA run in the same interpreter, on other maps under the same reference ids and with other scoring
+    parameters; its files are named pre*.xmap and are not examined."""
+    base = case["filesets"]["base"]
+    if "pre" not in case["filesets"]:
+        r2 = random.Random(rng.randrange(1 << 30))
+        refs = W.make_refs(r2, "random", len(base["refs"]), ids=[r["id"] for r in base["refs"]])
+        for r in refs:
+            r["pos"] = r["pos"][:60]
+            r["length"] = W.r1(r["pos"][-1] + 500)
+        qids = [q["id"] for q in base["queries"]][:3]
+        qs, _ = W.make_queries(r2, refs, len(qids), [("chimeric", 2), ("noisy", 2), ("planted", 1)], ids=qids)
+        case["filesets"]["pre"] = {"refs": [W.strip(r) for r in refs], "queries": [W.strip(q) for q in qs],
+                                   "r_layout": None, "q_layout": None}
+    ex["prelude"] = [{"fileset": "pre", "mode": rng.choice(W.MODES), "cpus": rng.choice([1, 2, 3]), "out_name": "pre.xmap",
+                      "config": {"-sp": rng.choice([600, 1500]), "-su": rng.choice([-50, -600]), "-dp": rng.choice([0.1, 3.0]),
+                                 "-d": rng.choice([800, 3000])}}]
+
+
+def big_world(rng):
+    """Many short queries (>= 256 records in one output file): thresholds in code paths that only large runs reach."""
+    ref = W.ref_random(rng, rng.randint(1, 300), rng.randint(70, 110))
+    n = rng.randint(270, 330)
+    ids = W.distinct_ids(rng, n, 1, 9000)
+    queries = []
+    for qid in ids:
+        q, _ = W.q_planted(rng, qid, ref, kmin=9, kmax=14, margin=1)
+        queries.append(W.strip(q))
+    return {"filesets": {"base": {"refs": [W.strip(ref)], "queries": queries, "r_layout": W.layout(rng, 1, True),
+                                  "q_layout": W.layout(rng, n, True)}},
+            "config": {}, "truth": {}, "meta": {"ref_family": "random", "families": ["big"]}}
 
 
 # ----------------------------------------------------------------------------------------------------------
@@ -174,6 +213,9 @@ class C01(Base):
         if rng.random() < 0.6:
             case["config"]["-p"] = rng.randint(3, 5)
         case["executions"] = [gen_exec(rng) for _ in range(2)]
+        for ex in case["executions"]:
+            if rng.random() < 0.2:
+                add_prelude(rng, case, ex)
         return case
 
     def run(self, case, ctx):
@@ -229,6 +271,11 @@ class C02(Base):
                 q["pos"] = [W.r1(p + off) for p in q["pos"]]
                 q["length"] = W.r1(q["length"] + off + rng.uniform(0, 9000))
         case["executions"] = [gen_exec(rng) for _ in range(2)]
+        for ex in case["executions"]:
+            if rng.random() < 0.2:
+                add_prelude(rng, case, ex)
+            if rng.random() < 0.3:
+                ex["stale"] = True
         return case
 
     def run(self, case, ctx):
@@ -269,6 +316,10 @@ class C03(Base):
         if rng.random() < 0.3:
             case["config"]["-ms"] = rng.choice([250, 500, 900])
         case["executions"] = [gen_exec(rng) for _ in range(2)]
+        if rng.random() < 0.008:
+            case = big_world(rng)
+            case["executions"] = [gen_exec(rng, profile=rng.choice(["jitter", "reverse-finish", "one-stalled"]), stream_p=0.0)]
+            case["executions"][0]["mode"] = rng.choice(["best", "separate"])
         return case
 
     def run(self, case, ctx):
@@ -310,6 +361,9 @@ class C04(Base):
             if rng.random() < 0.5:
                 cfg[k] = rng.choice(vals)
         case["executions"] = [gen_exec(rng) for _ in range(2)]
+        for ex in case["executions"]:
+            if rng.random() < 0.2:
+                add_prelude(rng, case, ex)
         return case
 
     def run(self, case, ctx):
@@ -376,6 +430,9 @@ class C05(Base):
         profs = ["reverse-finish", "one-stalled", "jitter", rng.choice(ALL_PROFILES)]
         rng.shuffle(profs)
         case["executions"] = [gen_exec(rng, mode=m, profile=p, stream_p=0.0) for m, p in zip(W.MODES, profs)]
+        if rng.random() < 0.3:
+            for ex in case["executions"]:
+                ex["stale"] = True
         return case
 
     def run(self, case, ctx):
@@ -484,6 +541,8 @@ class C06(Base):
                 "config": {}, "truth": truths, "meta": {"ref_family": "random", "families": ["planted"]}}
         case["executions"] = [gen_exec(rng, mode=m, stream_p=0.05, cpus=rng.choice([None, 1, 1, 2, 2, 3, 4, 8, 16]))
                               for m in W.MODES]
+        if rng.random() < 0.25:
+            add_prelude(rng, case, rng.choice(case["executions"]))
         return case
 
     def run(self, case, ctx):
@@ -573,6 +632,23 @@ class C07(Base):
         ex = gen_exec(rng, readback=True)
         # the -o path is user input too: no extension, a dot only in a directory name, a sub-directory, a ./ prefix
         ex["out_name"] = rng.choice(["out.xmap"] * 5 + ["out", "res.v2/out", "sub/out.xmap", "./out.xmap", "out.v1.xmap"])
+        if rng.random() < 0.3:
+            ex["stale"] = True
+        if rng.random() < 0.2:
+            # fault: descriptor exhaustion - every worker may open only a few descriptors beyond those it starts with, and
+            # one worker runs (nearly) all tasks; a run that leaks a descriptor per task dies, a correct one does not notice
+            ex["fd_margin"] = rng.choice([12, 16, 24])
+            ex["profile"] = rng.choice(["serial", "late-start"])
+            if ex["profile"] == "serial":
+                ex["cpus"] = 1
+            extra, _ = W.make_queries(rng, refs, rng.randint(14, 22), [("noisy", 3), ("random", 2), ("degenerate", 1)],
+                                      ids=[i for i in W.distinct_ids(rng, 30, 5001, 9000)][:22])
+            have = {q["id"] for q in case["filesets"]["base"]["queries"]}
+            for q in extra:
+                if q["id"] not in have and len(q["pos"]) <= 25:
+                    case["filesets"]["base"]["queries"].append(W.strip(q))
+            case["filesets"]["base"]["queries"].sort(key=lambda q: q["id"])
+            case["filesets"]["base"]["q_layout"] = W.layout(rng, len(case["filesets"]["base"]["queries"]))
         case["executions"] = [ex]
         return case
 
@@ -675,6 +751,8 @@ class C08(Base):
         case = gen_general(rng, mix=mix, aggressive=False)
         case["config"]["-diff"] = rng.choice([0, 20000, 100000, 100000, 10000000])
         base = gen_exec(rng, stream_p=0.0)
+        if rng.random() < 0.3:
+            base["stale"] = True
         case["executions"] = [dict(base, mode=m) for m in W.MODES]
         return case
 
@@ -837,6 +915,10 @@ class C09(Base):
             ex = gen_exec(rng, mode=mode, profile=p, stream_p=0.15)
             exs.append(ex)
         case["executions"] = exs
+        if rng.random() < 0.012:
+            case = big_world(rng)
+            mode = rng.choice(["best", "separate"])
+            case["executions"] = [gen_exec(rng, mode=mode, profile=p, stream_p=0.0) for p in ("serial", "reverse-finish", "jitter")]
         return case
 
     def run(self, case, ctx):
@@ -1256,11 +1338,14 @@ def c17_body(case):
                                            "gives different results", "stream-independent")], 0)
     # history: ONE reader object, several reads (same stream name, different filters / different content)
     reader = CmapReader()
+    hist_results = []
     for hi, h in enumerate(case.get("history", [])):
         text = fmt.write_cmap(case["maps"] if h["maps"] == "A" else case["maps_b"], h["layout"])
-        read(reader, h["api"], text, h["name"], h["profile"], h["seed"], h["seekable"], h["filter"], 100 + hi, "history")
+        hist_results.append(read(reader, h["api"], text, h["name"], h["profile"], h["seed"], h["seekable"], h["filter"],
+                                 100 + hi, "history"))
     out = rep.as_dict()
     out["stats"] = stats
+    out["digest"] = world_digest([results, hist_results, [v["clause"] for v in rep.violations]])
     return out
 
 
@@ -1315,6 +1400,8 @@ class C17(Base):
         for k, v in st["profiles"].items():
             ctx.stream_profiles[k] = ctx.stream_profiles.get(k, 0) + v
         rep.probes["history_reads"] += len(case.get("history", []))
+        ctx.world_digests.append(res["digest"])
+        ctx.exec_digests.add(res["digest"])
         return rep
 
 
@@ -1354,6 +1441,9 @@ class C18(Base):
             case["executions"][0]["fileset"] = "alt"
             case["executions"][0]["save_as_decoy"] = True
             case["executions"][1]["readback"]["decoy"] = "alt"
+        for ex in case["executions"]:
+            if rng.random() < 0.25:
+                ex["stale"] = True
         return case
 
     def run(self, case, ctx):
@@ -1366,6 +1456,13 @@ class C18(Base):
             maps = maps_for(case, ex, ctx)
             parsed = parse_outputs(out)
             probes_single(rep, out, parsed)
+            rep.clauses["visible-at-return"] += 1
+            if out["files"] != out["late_files"]:
+                n = sorted(set(out["files"]) | set(out["late_files"]))
+                n = [x for x in n if out["files"].get(x) != out["late_files"].get(x)][0]
+                rep.add([O.V("visible-at-return", f"{n}: a reader that opens the file the moment run() has returned sees "
+                                                  f"{len(out['files'].get(n, ''))} characters, the finished file has "
+                                                  f"{len(out['late_files'].get(n, ''))}", "visible-at-return", file=n)], k)
             if ex.get("save_as_decoy"):
                 ctx.save_decoys(out)
             if out.get("readback_decoy"):
